@@ -43,7 +43,8 @@ Definition handles_ok (f : family) (hs : list gen_handle) : bool :=
   end.
 
 (* kinds "...@shrunk" are the same states after the cell length and ratio were reduced: the ranges a later
-   stage of a chain declares (the score of such a probe state need not be defined) *)
+   stage of a chain declares; kinds "...@wide" are the same states loaded with side ratio 1.75 (the score of
+   such a probe state need not be defined) *)
 Fixpoint has_at (s : string) : bool :=
   match s with
   | EmptyString => false
@@ -63,6 +64,6 @@ Definition state_ok (gs : list gen_group) (s : gen_state) : bool :=
 Theorem handles_are_declared_ranges : forallb (state_ok gen_groups) gen_bounds = true.
 Proof. vm_compute. reflexivity. Qed.
 
-(* all 7 groups x 5 state kinds were probed, initial and shrunk *)
-Theorem all_states_probed : length gen_bounds = 70%nat.
+(* all 7 groups x 5 state kinds were probed: initial, shrunk, and with a side ratio above one *)
+Theorem all_states_probed : length gen_bounds = 105%nat.
 Proof. vm_compute. reflexivity. Qed.
